@@ -34,24 +34,25 @@ def read_entry(m, scored, want_values=True):
     e = Entry(m.id())
     if scored:
         e.score = m.score()
-    if want_values:
+    try:
+        e.weight = m.weight()
+    except Exception:  # noqa - composite matchers need not support weight()
+        e.weight = None
+    if True:
         try:
-            e.weight = m.weight()
-        except Exception:  # noqa - composite matchers need not support weight()
-            e.weight = None
-        try:
-            e.value = m.value()
+            e.value = m.value() if want_values else None
         except Exception:  # noqa
             e.value = None
+        try:
+            e.terms = sorted(set(m.matching_terms()))
+        except Exception:  # noqa
+            e.terms = None
+    if want_values:
         try:
             if m.supports("positions"):
                 e.spans = [(s.start, s.end) for s in m.spans()]
         except Exception:  # noqa
             e.spans = None
-        try:
-            e.terms = sorted(set(m.matching_terms()))
-        except Exception:  # noqa
-            e.terms = None
     return e
 
 
